@@ -35,4 +35,51 @@ theorem node_rebinding : nodeRebindsById = true := by decide
 process are not restored by a lazy reload -/
 theorem proc_end_time_not_restored : "end_time" ∉ procFieldsRestored ∧ "timestamp" ∉ procFieldsRestored := by decide
 
+-- ------------------------------------------------------------------ nodes built at run time (generated acts)
+
+/-- links between run-time nodes -/
+inductive Link where
+  | child (node builder : String)
+  | next (node follower : String)
+  deriving DecidableEq, Repr
+
+/-- `dyn_build_act` over the acts of one builder: in a sequence the first node hangs below the builder and every later one
+follows its predecessor; in parallel all hang below the builder (shape read from the source: `dynBuildShape`) -/
+def buildLinks (builder : String) (seq : Bool) : Option String → List String → List Link
+  | _, [] => []
+  | none, n :: ns => .child n builder :: buildLinks builder seq (some n) ns
+  | some p, n :: ns => (if seq then .next p n else .child n builder) :: buildLinks builder seq (some n) ns
+
+/-- what `Node::data` stores per built node: its id and whether it is chained (no parent link of its own, a predecessor) -/
+def describe (seq : Bool) : Option String → List String → List (String × Bool)
+  | _, [] => []
+  | none, n :: ns => (n, false) :: describe seq (some n) ns
+  | some _, n :: ns => (n, seq) :: describe seq (some n) ns
+
+/-- `restore_nodes`: a chained node becomes the `next` of the previously restored one, any other a child of the builder -/
+def restoreLinks (builder : String) : Option String → List (String × Bool) → List Link
+  | _, [] => []
+  | none, (n, _) :: ns => .child n builder :: restoreLinks builder (some n) ns
+  | some p, (n, c) :: ns => (if c then .next p n else .child n builder) :: restoreLinks builder (some n) ns
+
+/-- **Run-time nodes round-trip** (K3: every builder, both modes, every list of generated nodes): what a reload rebuilds
+from the stored description is linked exactly as it was built. -/
+theorem runtime_nodes_roundtrip (builder : String) (seq : Bool) (prev : Option String) (ns : List String) :
+    restoreLinks builder prev (describe seq prev ns) = buildLinks builder seq prev ns := by
+  induction ns generalizing prev with
+  | nil => cases prev <;> rfl
+  | cons n ns ih => cases prev <;> simp [describe, restoreLinks, buildLinks, ih]
+
+/-- the stored description keeps every node, in order -/
+theorem describe_ids (seq : Bool) (prev : Option String) (ns : List String) : (describe seq prev ns).map (·.1) = ns := by
+  induction ns generalizing prev with
+  | nil => cases prev <;> rfl
+  | cons n ns ih => cases prev <;> simp [describe, ih]
+
+/-- K1: the source has this shape on both sides, stores `nodes` and `chained`, and writes the builder's row after building -/
+theorem runtime_nodes_tables : dynBuildShape = true ∧ restoreRelinks = true ∧ buildActsPersists = true ∧
+    "nodes" ∈ storedNodeFields ∧ "chained" ∈ storedNodeFields := by decide
+
+example : buildLinks "a1" true none ["b1", "b2", "b3"] = [.child "b1" "a1", .next "b1" "b2", .next "b2" "b3"] := by decide
+
 end Acts.C12
